@@ -335,20 +335,18 @@ class Workspace:
             self.rounds += 1
             ok, unattr, exes, dump = self.cargo(test=test, build_tag=build_tag, timeout=timeout, env_extra=env_extra)
             failing = [c for c in self.cases if c.removed is None and c.diags]
+            # shards that were not rebuilt in this round keep the records of the round that built them
+            self.attach_records(dump)
             if self.expand_only:
                 if unattr:
                     raise Inconclusive("unattributed compiler errors in expand-only corpus %s: %s"
                                        % (self.label, unattr[0]["rendered"][:600]))
-                self.attach_records(dump)
                 return {"exes": {}, "dump": dump, "removed": []}
             if ok and not failing:
-                self.attach_records(dump)
                 return {"exes": exes, "dump": dump, "removed": removed}
             if not failing:
                 raise Inconclusive("build of %s failed without attributable diagnostics: %s | %s" % (
                     self.label, (unattr[0]["rendered"][:800] if unattr else ""), self.last_stderr[-600:]))
-            # remember the expansion records of failing cases before they are dropped
-            self.attach_records(dump, only=failing)
             for c in failing:
                 c.removed = {"round": rnd, "diags": c.diags[:4]}
                 removed.append(c)
@@ -374,7 +372,7 @@ class Workspace:
             rs.sort(key=lambda r: (r["line"], r["seq"]))
             c.records = rs
             c.records_by[os.path.basename(str(dump))] = rs
-        self.all_records = recs
+        self.all_records = getattr(self, "all_records", []) + recs if getattr(self, "_keep_all", False) else recs
         return recs
 
     # -- running -----------------------------------------------------------
